@@ -245,7 +245,7 @@ func init() {
 		},
 	}
 	Props["C07"] = PropDef{
-		Explanation: "R-TLG + R-TLG-MAX on the frame reader; R-POOL; R-ORDER unpack-success-assigns and threshold plumbing; T-CONNINIT; T-VARLEN; R-RAWREAD; R-ERRFLOW; R-NOBUF. Decided: Every declared length is sign-checked and bounded by the protocol maximum before CopyN / allocation / re-slice; a successful UnPack has stored ID and Data on every path; pooled buffers do not escape; every Conn starts uncompressed on the bare socket; frame length fields use the LEB128 length. Round-trip equality and zlib conformance are not decided.",
+		Explanation: "R-TLG + R-TLG-MAX on the frame reader; R-POOL; R-ORDER unpack-success-assigns and threshold plumbing; T-CONNINIT; T-VARLEN; R-RAWREAD; R-ERRFLOW; R-NOBUF; R-ACCEPT the frame-length bound admits the largest accepted payload. Decided: Every declared length is sign-checked and bounded by the protocol maximum before CopyN / allocation / re-slice, and the bound on the frame length is not below what the largest accepted payload needs; a successful UnPack has stored ID and Data on every path; pooled buffers do not escape; every Conn starts uncompressed on the bare socket; frame length fields use the LEB128 length. Round-trip equality and zlib conformance are not decided.",
 		Run: func(c *Ctx) []core.Ob {
 			in := c.reachPred([]string{"net/packet.(*Packet).UnPack", "net/packet.(*Packet).Pack"}, "net/packet")
 			obs := c.TLGObs(in, in, false)
